@@ -18,6 +18,12 @@
 #include "crypt.h"
 #endif
 
+/* ---------- per-thread output (so that ops can run concurrently, C08) ---------- */
+static __thread FILE *cur_out;
+#define OUT (cur_out ? cur_out : stdout)
+#define printf(...) fprintf (OUT, __VA_ARGS__)
+#define putchar(c) fputc ((c), OUT)
+
 /* ---------- abort / assert interception ---------- */
 static __thread jmp_buf * volatile abort_jmp;
 static __thread volatile int in_call;
@@ -32,7 +38,7 @@ void __assert_fail (const char *a, const char *f, unsigned int l, const char *fn
 
 /* ---------- deterministic OS randomness (interposes libc) ---------- */
 static unsigned char os_bytes[512];
-static size_t os_len, os_pos;
+static size_t os_len; static __thread size_t os_pos;
 static int os_real;            /* 1: use the real CSPRNG */
 static unsigned long os_calls;
 #ifdef XC_SO
@@ -115,6 +121,45 @@ static int op_prim_dispatch (int n, char **tok) { (void)n; (void)tok; return 0; 
 #include "ops_prim.h"
 #endif
 
+static void dispatch (int n, char **tok)
+{
+  if (!strcmp (tok[0], "G")) op_gensalt (n, tok);
+  else if (!strcmp (tok[0], "K")) op_checksalt (n, tok);
+  else if (!strcmp (tok[0], "KE")) op_checksalt_enum (n, tok);
+  else if (!strcmp (tok[0], "P")) op_preferred (n, tok);
+  else if (!strcmp (tok[0], "CFG")) printf ("ok\n");
+  else if (!strcmp (tok[0], "OS")) { int isn; size_t l; unsigned char *p = unhex (tok[1], &l, &isn);
+      os_real = isn; os_len = l > sizeof os_bytes ? sizeof os_bytes : l; os_pos = 0;
+      if (p) { memcpy (os_bytes, p, os_len); free (p); } printf ("ok\n"); }
+  else if (op_heap_dispatch (n, tok)) ;
+  else if (op_crypt_dispatch (n, tok)) ;
+  else if (op_prim_dispatch (n, tok)) ;
+  else printf ("bad-op\n");
+}
+
+/* MT <nthreads> <k>: the next k lines are executed first by this thread, then concurrently by nthreads threads,
+   each on its own (thread-local) objects; every thread's transcript must equal the sequential one.
+   -> mt threads=<n> ops=<k> equal=<0|1> firstdiff=<thread>:<line|-> */
+struct mtjob { char **lines; int k; char *transcript; size_t tlen; };
+static void run_lines (char **lines, int k)
+{
+  for (int i = 0; i < k; i++)
+    {
+      char *copy = strdup (lines[i]); char *tok[MAXTOK]; int n = split (copy, tok);
+      if (n) dispatch (n, tok);
+      free (copy);
+    }
+}
+static void *mt_thread (void *arg)
+{
+  struct mtjob *j = arg;
+  cur_out = open_memstream (&j->transcript, &j->tlen);
+  run_lines (j->lines, j->k);
+  fclose (cur_out); cur_out = NULL;
+  for (int i = 0; i < NOBJ; i++) { free (objs[i].base); objs[i].base = NULL; objs[i].d = NULL; }
+  return NULL;
+}
+
 int main (int argc, char **argv)
 {
   (void)argc; (void)argv;
@@ -124,20 +169,29 @@ int main (int argc, char **argv)
     {
       char *tok[MAXTOK];
       if (line[0] == '#') continue;
-      int n = split (line, tok);
-      if (n == 0) continue;
-      if (!strcmp (tok[0], "G")) op_gensalt (n, tok);
-      else if (!strcmp (tok[0], "K")) op_checksalt (n, tok);
-      else if (!strcmp (tok[0], "KE")) op_checksalt_enum (n, tok);
-      else if (!strcmp (tok[0], "P")) op_preferred (n, tok);
-      else if (!strcmp (tok[0], "CFG")) printf ("ok\n");
-      else if (!strcmp (tok[0], "OS")) { int isn; size_t l; unsigned char *p = unhex (tok[1], &l, &isn);
-          os_real = isn; os_len = l > sizeof os_bytes ? sizeof os_bytes : l; os_pos = 0;
-          if (p) { memcpy (os_bytes, p, os_len); free (p); } printf ("ok\n"); }
-      else if (op_heap_dispatch (n, tok)) ;
-      else if (op_crypt_dispatch (n, tok)) ;
-      else if (op_prim_dispatch (n, tok)) ;
-      else printf ("bad-op\n");
+      char *copy = strdup (line);
+      int n = split (copy, tok);
+      if (n == 0) { free (copy); continue; }
+      if (!strcmp (tok[0], "MT") && n >= 3)
+        {
+          int nt = atoi (tok[1]), k = atoi (tok[2]);
+          char **lines = calloc ((size_t)k, sizeof *lines);
+          for (int i = 0; i < k; i++) { char *l = NULL; size_t c = 0; if (getline (&l, &c, stdin) <= 0) l = strdup (""); lines[i] = l; }
+          struct mtjob seq = { lines, k, NULL, 0 };
+          mt_thread (&seq);
+          struct mtjob *jobs = calloc ((size_t)nt, sizeof *jobs); pthread_t *th = calloc ((size_t)nt, sizeof *th);
+          for (int t = 0; t < nt; t++) { jobs[t].lines = lines; jobs[t].k = k; pthread_create (&th[t], NULL, mt_thread, &jobs[t]); }
+          int equal = 1, dt = -1;
+          for (int t = 0; t < nt; t++) { pthread_join (th[t], NULL);
+            if (jobs[t].tlen != seq.tlen || memcmp (jobs[t].transcript, seq.transcript, seq.tlen)) { if (equal) dt = t; equal = 0; } }
+          printf ("mt threads=%d ops=%d equal=%d firstdiff=%d\n", nt, k, equal, dt);
+          for (int t = 0; t < nt; t++) free (jobs[t].transcript);
+          free (seq.transcript); free (jobs); free (th);
+          for (int i = 0; i < k; i++) free (lines[i]);
+          free (lines);
+        }
+      else dispatch (n, tok);
+      free (copy);
     }
   fflush (stdout);
   return 0;
